@@ -1,29 +1,92 @@
 import Hdc.Model.Discrete
+import Hdc.Lemmas.Discrete
 /-
 C16  Zonal mean is the exact mean and count of valid pixels per zone.
 The model returns (sum, count) per zone over ℤ; the kernel stores sum / count (NaN when count = 0).
 -/
 namespace Hdc.C16
+open Hdc.Discrete
 
 /-- the pixels that count for zone k -/
 def members (pix zones : List Int) (nd znd k : Int) : List Int :=
   ((pix.zip zones).filter fun (v, z) => v ≠ nd ∧ z ≠ znd ∧ z = k).map (·.1)
 
--- THEOREMS TO PROVE (statements fixed)
--- theorem zoneStats_spec (pix zones : List Int) (nd znd k : Int) :
---     zoneStats pix zones nd znd k = ((members pix zones nd znd k).sum, (members pix zones nd znd k).length)
--- theorem zone_nodata_nowhere (pix zones : List Int) (nd znd : Int) : zoneStats pix zones nd znd znd = (0, 0)
--- theorem zonal_perm_invariant (pz qz : List (Int × Int)) (h : pz.Perm qz) (nd znd k : Int) :
---     zoneStats (pz.map (·.1)) (pz.map (·.2)) nd znd k = zoneStats (qz.map (·.1)) (qz.map (·.2)) nd znd k
--- theorem zonalMean_length (pix zones : List Int) (nz : Nat) (nd znd : Int) : (zonalMean pix zones nz nd znd).length = nz
--- theorem zonalMean_get (pix zones : List Int) (nz : Nat) (nd znd : Int) (k : Nat) (hk : k < nz) :
---     (zonalMean pix zones nz nd znd)[k]? = some (zoneStats pix zones nd znd (k : Int))
--- /-- counts are exact in an int64 accumulator: bounded by the number of pixels -/
--- theorem count_le (pix zones : List Int) (nd znd k : Int) : (zoneStats pix zones nd znd k).2 ≤ pix.length
--- /-- |sum| ≤ count · B for pixels bounded by B: exact in float64 when count · B < 2^53 -/
--- theorem sum_bound (pix zones : List Int) (nd znd k : Int) (B : Nat) (hB : ∀ v ∈ pix, v.natAbs ≤ B) :
---     (zoneStats pix zones nd znd k).1.natAbs ≤ (zoneStats pix zones nd znd k).2 * B
--- /-- the pinned tree accumulated in float32, whose counter saturates (regression witness, F5) -/
--- theorem float32_counter_saturates : (16777216 : Float32) + 1 = 16777216      -- by decide +kernel
+theorem zoneStats_spec (pix zones : List Int) (nd znd k : Int) :
+    zoneStats pix zones nd znd k = ((members pix zones nd znd k).sum, (members pix zones nd znd k).length) := by
+  unfold zoneStats members
+  rw [foldl_sumCount0]; simp
+
+theorem zone_nodata_nowhere (pix zones : List Int) (nd znd : Int) : zoneStats pix zones nd znd znd = (0, 0) := by
+  unfold zoneStats
+  have : ((pix.zip zones).filter fun (v, z) => v ≠ nd ∧ z ≠ znd ∧ z = znd) = [] := by
+    rw [List.filter_eq_nil_iff]
+    rintro ⟨v, z⟩ _
+    simp
+  rw [this]; rfl
+
+theorem zonal_perm_invariant (pz qz : List (Int × Int)) (h : pz.Perm qz) (nd znd k : Int) :
+    zoneStats (pz.map (·.1)) (pz.map (·.2)) nd znd k = zoneStats (qz.map (·.1)) (qz.map (·.2)) nd znd k := by
+  unfold zoneStats
+  rw [zip_map_fst_snd, zip_map_fst_snd, foldl_sumCount0, foldl_sumCount0]
+  have hf := h.filter (fun (p : Int × Int) => match p with | (v, z) => decide (v ≠ nd ∧ z ≠ znd ∧ z = k))
+  congr 1
+  · exact perm_sum_int (hf.map _)
+  · exact hf.length_eq
+
+theorem zonalMean_length (pix zones : List Int) (nz : Nat) (nd znd : Int) : (zonalMean pix zones nz nd znd).length = nz := by
+  simp [zonalMean]
+
+theorem zonalMean_get (pix zones : List Int) (nz : Nat) (nd znd : Int) (k : Nat) (hk : k < nz) :
+    (zonalMean pix zones nz nd znd)[k]? = some (zoneStats pix zones nd znd (k : Int)) := by
+  simp [zonalMean, hk]
+
+theorem members_sub (pix zones : List Int) (nd znd k : Int) :
+    ∀ v ∈ members pix zones nd znd k, v ∈ pix ∧ v ≠ nd := by
+  intro v hv
+  simp only [members, List.mem_map, List.mem_filter] at hv
+  obtain ⟨⟨a, z⟩, ⟨hz, hp⟩, rfl⟩ := hv
+  refine ⟨(List.of_mem_zip hz).1, ?_⟩
+  simp at hp
+  exact hp.1
+
+/-- counts are exact in an int64 accumulator: bounded by the number of pixels -/
+theorem count_le (pix zones : List Int) (nd znd k : Int) : (zoneStats pix zones nd znd k).2 ≤ pix.length := by
+  rw [zoneStats_spec]
+  simp only [members, List.length_map]
+  refine Nat.le_trans (List.length_filter_le _ _) ?_
+  rw [List.length_zip]; exact Nat.min_le_left _ _
+
+/-- |sum| ≤ count · B for pixels bounded by B: exact in float64 when count · B < 2^53 -/
+theorem sum_bound (pix zones : List Int) (nd znd k : Int) (B : Nat) (hB : ∀ v ∈ pix, v.natAbs ≤ B) :
+    (zoneStats pix zones nd znd k).1.natAbs ≤ (zoneStats pix zones nd znd k).2 * B := by
+  rw [zoneStats_spec]
+  exact natAbs_sum_le _ B (fun v hv => hB v (members_sub pix zones nd znd k v hv).1)
+
+/-- the pinned tree accumulated in float32, whose counter saturates (regression witness, F5) -/
+theorem float32_counter_saturates : (16777216 : Float32) + 1 = 16777216 := by decide +kernel
+
+/-- the repaired kernel's integer counter does not saturate -/
+theorem nat_counter_does_not_saturate : (16777216 : Nat) + 1 ≠ 16777216 := by decide
+
+/-- a zone with no valid pixel has count 0 (the kernel stores NaN there) -/
+theorem zone_empty_count (pix zones : List Int) (nd znd k : Int)
+    (h : ∀ p ∈ pix.zip zones, p.1 = nd ∨ p.2 ≠ k) : zoneStats pix zones nd znd k = (0, 0) := by
+  unfold zoneStats
+  have : ((pix.zip zones).filter fun (v, z) => v ≠ nd ∧ z ≠ znd ∧ z = k) = [] := by
+    rw [List.filter_eq_nil_iff]
+    rintro ⟨v, z⟩ hp
+    have := h _ hp
+    simp at this ⊢
+    intro h1 _ h3
+    cases this with
+    | inl h => exact absurd h h1
+    | inr h => exact absurd h3 h
+  rw [this]; rfl
+
+-- non-vacuity: 2 zones, one nodata pixel, one pixel in the nodata zone
+example : zonalMean [10, 20, -1, 40, 50] [0, 1, 0, 0, 9] 2 (-1) 9 = [(50, 2), (20, 1)] := by decide
+example : members [10, 20, -1, 40, 50] [0, 1, 0, 0, 9] (-1) 9 0 = [10, 40] := by decide
+example : zoneStats [10, 20, -1, 40, 50] [0, 1, 0, 0, 9] (-1) 9 9 = (0, 0) := by decide
+example : zoneStats [10, 20] [0, 0] (-1) 9 0 = zoneStats [20, 10] [0, 0] (-1) 9 0 := by decide
 
 end Hdc.C16
